@@ -49,6 +49,8 @@ def check_request(s, rec, seen_bt):
     """independent reading of one emitted datagram against the call; returns None or a reason"""
     r = rec["result"]
     dgs = rec["datagrams"]
+    if rec.get("ctor_failed"):
+        return f"a session with valid credentials could not be created: {r[1]}"
     if r[0] != "ok":
         if dgs:
             return f"call failed with {r[1]} but {len(dgs)} datagram(s) were sent"
@@ -86,6 +88,9 @@ def check_request(s, rec, seen_bt):
             return "engine id differs from the session's"
         if (d["boots"], d["time"]) not in seen_bt:
             return f"engine boots/time {(d['boots'], d['time'])} were never announced by the agent"
+        if rec.get("expect_bt") is not None and (d["boots"], d["time"]) != rec["expect_bt"]:
+            return (f"engine boots/time {(d['boots'], d['time'])} instead of {rec['expect_bt']}, the values of the most "
+                    "recent message the session accepted (a skipped datagram must not move the clock)")
         want_flags = (1 if st.auth_alg else 0) | (2 if st.priv_alg else 0)
         if d["flags"] & 3 != want_flags or d["flags"] > 7:
             return f"security flags {d['flags'] & 3} instead of {want_flags}"
